@@ -546,3 +546,100 @@ def lower_ternary_assign(sl):
     sl.text = new
     sl.rules["L20:x = c ? a : b -> if/else"] = sl.rules.get("L20:x = c ? a : b -> if/else", 0) + n
     return sl
+
+
+def lower_exceptions(sl, ret_default, kinds, flag="verif_exc"):
+    """Rule L26: C++ exceptions as an explicit flag (CBMC's C++ front end has no throw / try / catch).
+      throw K{...}; / throw K(...);          ->  { flag = <id of K>; return DEFAULT; }
+      after every simple statement           ->  if (flag) return DEFAULT;             (propagation to the caller)
+      try { B } catch (K& e) { H }           ->  { B with `if (flag) goto L;` after every simple statement } L: ;
+                                                 if (flag == <id of K>) { flag = 0; K e; H }  if (flag) return DEFAULT;
+    `kinds` maps exception class names to flag values; `ret_default` is the text returned on the exceptional path
+    ("" for void functions).  Only the statement forms that occur in the sliced functions are handled; anything else
+    (nested try, catch (...), rethrow) aborts the extraction."""
+    ret = ("return %s;" % ret_default) if ret_default else "return;"
+    n_throw = n_try = n_prop = 0
+
+    def throw_repl(m):
+        nonlocal n_throw
+        k = m.group(1)
+        if k not in kinds:
+            raise ExtractionBroken(f"slice {sl.name}: throw of an exception class outside rule L26's table: {k}")
+        n_throw += 1
+        return "VERIF_L26_THROW_%d;" % kinds[k]
+    text = sl.text
+    # function body starts at the first '{'
+    b0 = text.index("{")
+    head, body = text[:b0 + 1], text[b0 + 1:]
+    body = re.sub(r"\bthrow\s+([\w:]+)\s*(\{[^;]*\}|\([^;]*\))\s*;", throw_repl, body)
+    if re.search(r"\bthrow\b", body):
+        raise ExtractionBroken(f"slice {sl.name}: a throw statement rule L26 cannot lower")
+
+    def add_checks(seg, action):
+        """after every ';' that ends a simple statement (paren depth 0, not inside a for-header) append the check"""
+        nonlocal n_prop
+        ts = Source("<seg>", text=seg)
+        out, depth, i, n = [], 0, 0, len(seg)
+        while i < n:
+            ch = seg[i]
+            out.append(ch)
+            if ts.mask[i] == "c":
+                if ch in "([":
+                    depth += 1
+                elif ch in ")]":
+                    depth -= 1
+                elif ch == ";" and depth == 0:
+                    # do not touch `return ...;` produced by the throw lowering or plain returns: nothing runs after them
+                    sofar = "".join(out)
+                    stmt_start = max(sofar.rfind(c, 0, len(sofar) - 1) for c in ";{}")
+                    stmt = sofar[stmt_start + 1:].strip()
+                    follows_else = re.match(r"\s*else\b", seg[i + 1:]) is not None
+                    if not re.match(r"(return\b|break\b|continue\b|goto\b|VERIF_L26_THROW_)", stmt) and not follows_else:
+                        out.append(" " + action)
+                        n_prop += 1
+            i += 1
+        return "".join(out)
+    # try blocks
+    parts = []
+    k = 0
+    while True:
+        ts = Source("<body>", text=body)
+        m = None
+        for mm in re.finditer(r"\btry\s*\{", body):
+            if ts.mask[mm.start()] == "c":
+                m = mm
+                break
+        if not m:
+            break
+        tb = m.end() - 1
+        te = ts.match_brace(tb)
+        cm = re.match(r"\s*catch\s*\(\s*(?:const\s+)?([\w:]+)\s*&\s*(\w+)\s*\)\s*\{", body[te:])
+        if not cm:
+            raise ExtractionBroken(f"slice {sl.name}: try without a single typed catch clause (rule L26)")
+        hb = te + cm.end() - 1
+        he = ts.match_brace(hb)
+        if re.match(r"\s*catch\b", body[he:]):
+            raise ExtractionBroken(f"slice {sl.name}: several catch clauses (rule L26)")
+        kname, var = cm.group(1), cm.group(2)
+        if kname not in kinds:
+            raise ExtractionBroken(f"slice {sl.name}: catch of a class outside rule L26's table: {kname}")
+        inner = body[tb + 1:te - 1]
+        if re.search(r"\btry\b", inner):
+            raise ExtractionBroken(f"slice {sl.name}: nested try (rule L26)")
+        label = "verif_catch_%s_%d" % (re.sub(r"\W+", "_", sl.name), k)  # unique across the TU: CBMC's C++ front end keeps labels in one table
+        inner = re.sub(r"VERIF_L26_THROW_(\d+);", lambda tm: "{ %s = %s; goto %s; }" % (flag, tm.group(1), label), inner)
+        inner = add_checks(inner, "if (%s) goto %s;" % (flag, label))
+        handler = body[hb + 1:he - 1]
+        before = add_checks(body[:m.start()], "if (%s) %s" % (flag, ret))
+        parts.append(before + "{" + inner + "} " + label + ": ; if (%s == %d) { %s = 0; %s %s; %s } if (%s) %s" % (flag, kinds[kname], flag, kname, var, handler, flag, ret))
+        body = body[he:]
+        k += 1
+        n_try += 1
+    # the closing brace of the function stays last
+    tail_end = body.rstrip().rfind("}")
+    parts.append(add_checks(body[:tail_end], "if (%s) %s" % (flag, ret)) + body[tail_end:])
+    sl.text = head + re.sub(r"VERIF_L26_THROW_(\d+);", lambda m: "{ %s = %s; %s }" % (flag, m.group(1), ret), "".join(parts))
+    sl.rules["L26:throw->flag + return"] = sl.rules.get("L26:throw->flag + return", 0) + n_throw
+    sl.rules["L26:try/catch->goto + flag test"] = sl.rules.get("L26:try/catch->goto + flag test", 0) + n_try
+    sl.rules["L26:exception propagation checks"] = sl.rules.get("L26:exception propagation checks", 0) + n_prop
+    return sl
